@@ -123,6 +123,8 @@ var Zones = []string{
 	// names that are no zones: abbreviations (which some of the TZ values the children run under know), Go's own name for the
 	// zone of the process, an offset
 	"NDT", "EDT", "Local", "+12:45",
+	// a known zone spelled in another letter case is another name (zone names are case-sensitive)
+	"america/new_york", "EUROPE/LONDON",
 }
 
 var nastyTexts = []string{
